@@ -21,6 +21,24 @@ def _stores(tier):
                            {'recorded': []}]}),
         ('lease', {'apps': [{'recorded': [], 'lease': '1h'},
                             {'recorded': []}]}),
+        # a server offers a trait that is not in the cell-wide /traits list
+        # (registered on the fly by create_server), one that is; instances
+        # ask for them
+        ('traits', {'traits': ['ssd'],
+                    'servers': [{'traits': ['gpu']}, {'traits': ['ssd']}],
+                    'apps': [{'recorded': [], 'traits': ['ssd']},
+                             {'recorded': []}]}),
+        # partitions and an allocation with a trait
+        ('parts', {'traits': ['ssd'],
+                   'servers': [{'partition': 'p0', 'traits': ['ssd']},
+                               {'partition': 'p1'}],
+                   'allocations': [
+                       {'name': 'proid/x', 'partition': 'p0', 'rank': 100,
+                        'memory': '0G', 'cpu': '0%', 'disk': '0G',
+                        'traits': ['ssd'],
+                        'assignments': [{'pattern': 'proid.web*',
+                                         'priority': 50}]}],
+                   'apps': [{'recorded': []}, {'recorded': []}]}),
     ]
     return out
 
@@ -48,6 +66,13 @@ def subharnesses(tier):
                 subs.append(('%s-%s-%s' % (sname, '_'.join(
                     str(x) for x in ev if not isinstance(x, (list, dict))),
                     bt), spec))
+    # an instance asking for the on-the-fly trait is scheduled while the first
+    # master runs (its servers are long registered)
+    store = dict(_stores(tier))['traits']
+    for bt in BETWEEN[:2]:
+        spec = dict(store, nservers=2,
+                    events=[['schedule', 2, {'traits': ['gpu']}]], between=bt)
+        subs.append(('traits-schedule_gpu-%s' % bt, spec))
     return subs
 
 
